@@ -22,6 +22,7 @@ MODULES = [
     "costsonly",
     "options",
     "emptiness",
+    "storage",
 ]
 
 
